@@ -714,12 +714,13 @@ func (fr *fwRun) stepInterest(st *fwStep) {
 	m := fr.m
 	F := m.faces[st.Face]
 	wire := buildInterestWire(st)
-	pkt, err := fwsim.PktFromWire(wire, st.Face, st.token, st.NextHop)
+	pkt, err := fr.sim.Ingest(wire, st.Face, st.token, st.NextHop)
 	if err != nil {
-		fr.c.Inconclusive("harness Interest does not parse: " + err.Error())
+		fr.c.Inconclusive("harness Interest was not queued by the link service: " + err.Error())
 		fr.stop = true
 		return
 	}
+	fr.c.Count("packets_through_link_service_ingress", 1)
 	dnlHas := false
 	if st.Nonce != nil {
 		dnlHas = fwfw.VerifDnlHas(fr.sim.T, st.name, *st.Nonce)
@@ -1070,12 +1071,13 @@ func (fr *fwRun) stepData(st *fwStep) {
 		fr.stop = true
 		return
 	}
-	pkt, err := fwsim.PktFromWire(wire, st.Face, st.token, nil)
+	pkt, err := fr.sim.Ingest(wire, st.Face, st.token, nil)
 	if err != nil {
-		fr.c.Inconclusive("harness Data does not parse")
+		fr.c.Inconclusive("harness Data was not queued by the link service: " + err.Error())
 		fr.stop = true
 		return
 	}
+	fr.c.Count("packets_through_link_service_ingress", 1)
 	u0 := time.Now()
 	if pi := h.Guard(func() { fr.sim.Data(pkt) }); pi != nil {
 		fr.fail(fr.prop, fr.prop+":panic:data:"+pi.Frame+":"+pi.Class, "Data pipeline panicked: "+pi.Value, nil)
